@@ -2,6 +2,7 @@ package h
 
 import (
 	"errors"
+	"path/filepath"
 	"time"
 
 	"github.com/cinar/indicator/v2/asset"
@@ -81,7 +82,8 @@ func H_C12(nAssets, ns, tmask, explicit, fault, workers int) {
 }
 
 // H_C12_Target: the same with another kind of target repository (1 = file system over
-// the file-table model of the CSV layer, 2 = SQL over the table model): the errors a
+// the file-table model of the CSV layer, 2 = SQL over the table model, 3 = file system with
+// the real CSV layer over the virtual file system): the errors a
 // target reports for an asset it does not hold differ between the implementations.
 func H_C12_Target(tkind, nAssets, ns, tmask, explicit int) {
 	c12core(tkind, nAssets, ns, tmask, explicit, 0, 1)
@@ -89,6 +91,12 @@ func H_C12_Target(tkind, nAssets, ns, tmask, explicit int) {
 
 func c12core(tkind, nAssets, ns, tmask, explicit, fault, workers int) {
 	names := []string{"a0", "a1", "a2"}[:nAssets]
+	// tkind 4: as 3, but an asset without snapshots is registered in the target by a
+	// zero-length file instead of an Append of nothing
+	touch := tkind == 4
+	if touch {
+		tkind = 3
+	}
 	var source, target asset.Repository = asset.NewInMemoryRepository(), newRepo(tkind)
 	src := map[string][]*asset.Snapshot{}
 	before := map[string][]*asset.Snapshot{}
@@ -101,7 +109,9 @@ func c12core(tkind, nAssets, ns, tmask, explicit, fault, workers int) {
 		if tj > ns {
 			tj = ns
 		}
-		if tj > 0 || explicit == 0 {
+		if touch && tj == 0 && explicit == 0 {
+			touchFile(filepath.Join(repoDir, name+".csv"))
+		} else if tj > 0 || explicit == 0 {
 			// copies: the target owns its own snapshot objects
 			cp := make([]*asset.Snapshot, tj)
 			for i := 0; i < tj; i++ {
